@@ -47,6 +47,9 @@ func runFamilies(f *mbt.Flags, cfg *config, behs [][]mbt.Step) {
 			for i := w; i < len(ms); i += nw {
 				m := ms[i]
 				seed := f.Seed*1000003 + int64(i)
+				if cfg.Seed != 0 {
+					seed = cfg.Seed
+				}
 				fl, e := replay(cfg, m.v, m.beh, seed, nil)
 				m.v = e.v
 				if fl != nil {
@@ -69,7 +72,7 @@ func runFamilies(f *mbt.Flags, cfg *config, behs [][]mbt.Step) {
 	wg.Wait()
 	reported := map[string]int{}
 	okc := 0
-	for _, m := range ms {
+	for mi, m := range ms {
 		if m.fail == nil {
 			okc++
 			continue
@@ -79,6 +82,7 @@ func runFamilies(f *mbt.Flags, cfg *config, behs [][]mbt.Step) {
 			c := *cfg
 			c.Variants = []variant{m.v}
 			c.Variants[0].Init = false
+			c.Seed = f.Seed*1000003 + int64(mi)
 			mbt.Mismatch(m.fail.key, fmt.Sprintf("[%s %s cache=%d fast=%v] step %d: %s", cfg.Impl, m.v.DB, m.v.Cache, m.v.Fast, m.fail.step, m.fail.what),
 				map[string]any{"cfg": c, "steps": slim(m.beh, m.fail.step)})
 		}
